@@ -25,7 +25,7 @@ ASSUMPTIONS = [
 ]
 MUST = ["contract_eval_validate_modbus_rtu_response", "contract_eval_validate_modbus_tcp_response",
         "contract_eval_validate_aa55_response", "verdict_true", "verdict_false", "verdict_partial", "verdict_rejected",
-        "transport_level_results", "accepted_rtu_read", "accepted_rtu_write", "accepted_rtu_multi", "accepted_tcp_read",
+        "transport_level_results", "concurrent_transport_cases", "accepted_rtu_read", "accepted_rtu_write", "accepted_rtu_multi", "accepted_tcp_read",
         "accepted_tcp_write", "accepted_tcp_multi", "accepted_aa55"]
 EXHAUSTIVE = {"quick": False, "thorough": False}
 
@@ -302,6 +302,35 @@ def transport_part(spec, part):
             part.violate(f"C01/{framing}/callback-exception", f"{le['message']} {le['exception'][:100]}", {"transport": True, "scenario": sc})
 
 
+def concurrent_part(spec, part):
+    """request A (read cA registers) is in flight when request B (read cB registers) is queued on the same object; the peer answers A's
+    transmission with a checksum-correct read answer of B's shape: it must not complete A."""
+    rnd = random.Random(spec["seed"])
+    for i in range(spec["n"]):
+        framing = rnd.choice(("rtu", "tcp"))
+        cA, cB = rnd.sample((1, 2, 5, 10, 30, 60), 2)
+        dA = {"framing": framing, "kind": "read", "comm": 0xF7, "reg": 2000, "count": cA}
+        dB = {"framing": framing, "kind": "read", "comm": 0xF7, "reg": 3000, "count": cB}
+        wrong = valid_answer(dict(dB, reg=2000), rnd)           # B-shaped answer
+        sc = {"transport": "tcp" if framing == "tcp" else "udp", "framing": framing, "keep_alive": rnd.random() < 0.5, "T": 1, "R": 1,
+              "by_reg": {2000: [["raw", wrong, 0.3]], 3000: ["now"]}, "after": "now",
+              "tasks": [{"start": 0.0, "steps": [["read", 2000, cA]]}, {"start": rnd.choice((0.0, 0.1, 0.29)), "steps": [["read", 3000, cB]]}]}
+        run = engine.run_scenario(sc, quiesce=False)
+        part.evaluations += 1
+        part.count("concurrent_transport_cases")
+        part.see(f"concurrent|{framing}|{cA}|{cB}")
+        for rec in run.calls:
+            if rec["outcome"] == "ok":
+                d = dA if rec["step"][1] == 2000 else dB
+                raw = bytes.fromhex(rec["result"]["raw"])
+                why = rc.c01_accept_ok(d, raw)
+                if why:
+                    sc2 = dict(sc, by_reg={"2000": [["raw", wrong.hex(), 0.3]], "3000": ["now"]})
+                    part.violate(f"C01/{framing}/delivered-invalid-result",
+                                 f"with a second request queued on the same object, the read of {d['count']} registers completed with "
+                                 f"{raw.hex()[:60]}: {why}", {"concurrent": True, "seed": spec["seed"], "i": i})
+
+
 def plan(tier, seed):
     specs = []
     n = 8 if tier == "quick" else 48
@@ -311,6 +340,7 @@ def plan(tier, seed):
                           "n_per": 6 if tier == "quick" else 40, "havoc": 30 if tier == "quick" else 120})
     for i in range(4 if tier == "quick" else 16):
         specs.append({"mode": "transport", "seed": f"{seed}:C01:T:{i}", "n": 500 if tier == "quick" else 5000})
+    specs.append({"mode": "concurrent", "seed": f"{seed}:C01:C", "n": 150 if tier == "quick" else 1500})
     return specs
 
 
@@ -319,6 +349,8 @@ def run_shard(spec):
     contracts.install_validator_contracts(contracts.Sink(part))
     if spec["mode"] == "direct":
         direct_part(spec, part)
+    elif spec["mode"] == "concurrent":
+        concurrent_part(spec, part)
     else:
         transport_part(spec, part)
     return part
@@ -328,6 +360,9 @@ def replay(case):
     g = env.goodwe()
     part = Part()
     contracts.install_validator_contracts(contracts.Sink(part))
+    if case.get("concurrent"):
+        concurrent_part({"seed": case["seed"], "n": case["i"] + 1}, part)
+        return [{"key": v["key"], "msg": v["msg"]} for v in part.violations]
     if case.get("transport"):
         run = engine.run_scenario(case["scenario"], peer_factory=RawPeer, quiesce=False)
         print(run.calls)
